@@ -5,7 +5,7 @@
 import os, sys
 sys.path.insert(0, os.path.join(os.environ.get("AIOFTP_REPO", "/repo"), "src"))
 OBLIGATION = 'aioftp.common:ThrottleStreamIO.readline::ThrottleStreamIO.readline/raises:TimeoutError:throttle-sleep-is-outside-the-io-timeout'
-MODEL = {'r0_sum!1': 0, 'r0_B!3': 0, 'r0_start!11': '0/1', 'r0_reset_rate!0': '1/1', 'read_timeout!13': '1/1', 'r0_limit!10': '1/1', 'clock!15': '0/1', 'clock!14': '-1/1', 'r0_rho!4': '0/1', 'r0_t0!2': '0/1', 'w0_reset_rate!5': '1/1'}
+MODEL = {'r0_sum!1': 0, 'r0_B!3': 0, 'r0_start!11': '0/1', 'clock!14': '-1/1', 'r0_limit!10': '1/1', 'w0_reset_rate!5': '1/1', 'r0_reset_rate!0': '1/1', 'r0_rho!4': '0/1', 'clock!15': '0/1', 'r0_t0!2': '0/1', 'read_timeout!13': '1/1'}
 SOLVER_NOTE = ''
 
 print("obligation", OBLIGATION, "failed; no concrete failing input could be constructed automatically")
